@@ -335,6 +335,62 @@ Fixpoint fold_iter (n : nat) (e : expr) : plan_pred :=
       end
   end.
 
+(* ------------------------------------------------------------------ parser: NOT binds tighter than comparison *)
+(* src/sql/parser.rs parse_prefix: `NOT` parses its operand with binding power 14, above the
+   comparison / IS / IN / BETWEEN / LIKE level (6).  When the harness prints `NOT x <op> y`
+   WITHOUT parentheses around the comparison (style 1; x an atom printed without parentheses),
+   TurDB reads `(NOT x) <op> y`.  `reparse_bare e` is the tree TurDB builds for the style-1 text
+   of e; in style 0 (fully parenthesised) the tree is e itself. *)
+Definition bare_atom (e : expr) : bool :=
+  match e with
+  | ECol _ => true
+  | ELit (VInt z) => 0 <=? z
+  | ELit (VFloat b) => f_sign b =? 0
+  | ELit _ => true
+  | _ => false
+  end.
+(* the NOT nodes that style 1 prints bare *)
+Definition bare_target (x : expr) : bool :=
+  match x with
+  | ECmp _ a _ | EIsNull _ a | EIn false a _ | EBetween false a _ _ | ELike false a _ => bare_atom a
+  | _ => false      (* NOT IN / NOT BETWEEN / NOT LIKE under a bare NOT are never printed bare *)
+  end.
+Fixpoint reparse_bare (e : expr) : expr :=
+  match e with
+  | ECol _ | ELit _ => e
+  | EArith op a b => EArith op (reparse_bare a) (reparse_bare b)
+  | ECmp op a b => ECmp op (reparse_bare a) (reparse_bare b)
+  | EAnd a b => EAnd (reparse_bare a) (reparse_bare b)
+  | EOr a b => EOr (reparse_bare a) (reparse_bare b)
+  | ENot x =>
+      if bare_target x then
+        match x with
+        | ECmp op a b => ECmp op (ENot a) (reparse_bare b)
+        | EIsNull neg a => EIsNull neg (ENot a)
+        | EIn neg a l => EIn neg (ENot a) (map reparse_bare l)
+        | EBetween neg a lo hi => EBetween neg (ENot a) (reparse_bare lo) (reparse_bare hi)
+        | ELike neg a p => ELike neg (ENot a) (reparse_bare p)
+        | _ => ENot (reparse_bare x)
+        end
+      else ENot (reparse_bare x)
+  | EIn neg a l => EIn neg (reparse_bare a) (map reparse_bare l)
+  | EBetween neg a lo hi => EBetween neg (reparse_bare a) (reparse_bare lo) (reparse_bare hi)
+  | ELike neg a p => ELike neg (reparse_bare a) (reparse_bare p)
+  | EIsNull neg a => EIsNull neg (reparse_bare a)
+  end.
+(* does style 1 print some NOT bare, i.e. does TurDB build a different tree *)
+Fixpoint has_bare (e : expr) : bool :=
+  match e with
+  | ECol _ | ELit _ => false
+  | EArith _ a b | ECmp _ a b | EAnd a b | EOr a b | ELike _ a b => has_bare a || has_bare b
+  | ENot x => bare_target x || has_bare x
+  | EIn _ a l => has_bare a || existsb has_bare l
+  | EBetween _ a lo hi => has_bare a || has_bare lo || has_bare hi
+  | EIsNull _ a => has_bare a
+  end.
+(* the tree TurDB evaluates for a query printed in the given style *)
+Definition parsed (sty : Z) (e : expr) : expr := if sty =? 1 then reparse_bare e else e.
+
 (* ------------------------------------------------------------------ the two query shapes *)
 (* what a query is observed to do *)
 Inductive qout :=
